@@ -36,6 +36,44 @@ def splits(n, k, rng):
     return cuts
 
 
+def wh_chains(ctx):
+    """same-flavour Widrow-Hoff chains (the WH half of C03): two calls chained through weights=, also with the
+    vector tables of the continued call in another row/column order, against the kernel model of the whole sequence"""
+    import whlib
+    from props import c08
+    rep, rng, sc = ctx.rep, ctx.rng, ctx.scratch
+    pool = c08.gen_cases(rng, 600 if ctx.thorough else 150, ctx.thorough)
+    wc = [c for c in pool if c["cut"] is not None]
+    jobs = []
+    for c in wc:
+        jobs.append({"flavour": c["fl"], "impl": c["impl"], "eta": rwlib.nd(c["eta"]), "cue_vectors": c["cv"],
+                     "outcome_vectors": c["ov"], "pol": c["pol"],
+                     "parts": [c["events"][:c["cut"]], c["events"][c["cut"]:]], "n_jobs": c["n_jobs"],
+                     "n_outcomes_per_job": c["n_outcomes_per_job"], "per": c["per"],
+                     "cue_vectors2": c.get("cv2"), "outcome_vectors2": c.get("ov2")})
+    impl = run_jobs(sc, "wh_worker", jobs)
+    mtabs, _, _ = whlib.model_tables(wc)
+    for c, r, mt in zip(wc, impl, mtabs):
+        d = c08.describe(c)
+        rep.case(d, nontrivial=True)
+        rep.hist("handover", "wh_%s->wh_%s%s" % (c["fl"], c["fl"], " (tables reordered)" if (c.get("cv2") or c.get("ov2")) else ""))
+        bad = None
+        if r.get("status") != "ok":
+            bad = "chain failed: %s" % str(r)[:400]
+        elif not r["value"].get("arguments_unchanged", True):
+            bad = "the weights handed to the continued call were modified"
+        else:
+            _, _, worst = rwlib.compare_tables(mt, whlib.impl_table(r["value"]), 1, missing_is_zero=c["impl"] == "dict_wh")
+            if worst:
+                bad = "chained Widrow-Hoff result differs from the single pass: %r" % (worst,)
+        if bad:
+            rep.violation("wh %s %s: %s" % (c["fl"], c["impl"], bad),
+                          {"correspondence": "X-continue/wh", "theorems": ["C03_chain", "C08_*"], "case": d})
+            break
+    rep.coverage["traces_validated_against_impl"] += len(wc)
+    rep.lap("wh_chains")
+
+
 def run(ctx):
     rep, rng, sc = ctx.rep, ctx.rng, ctx.scratch
     n_seq = 400 if ctx.thorough else 36
@@ -109,6 +147,7 @@ def run(ctx):
                                 "case": d})
             break
     rep.coverage["traces_validated_against_impl"] += len(cases)
+    wh_chains(ctx)
     n, badi = core.coq_crosscheck(enc[:100], mouts[:100])
     rep.note("vm_compute_crosschecked_cases", n)
     if badi:
